@@ -1,5 +1,6 @@
 import NmlVerif.Model.Add
 import NmlVerif.Gen.Members
+import NmlVerif.Gen.AddImpl
 import NmlVerif.DrvCommon
 import Std.Data.HashMap
 /-!
@@ -7,8 +8,11 @@ Driver for C10 (line protocol, see harness/props/c10.py).
 
   {"op":"members","cls":"Cell"}
       -> {"members":[[name,dataType,container,optional],…]}            (chain order; the harness sorts)
+  {"op":"members_seq","classes":["Cell",…]}
+      -> {"res":[{"members":[…],"dicts":[[ownerClass,[keyClass…]],…]},…]}   (the `__all_members_` dicts after each call)
   {"op":"seq","parent":OBJ,"pool":[OBJ…],"calls":[{"c":poolIndex,"hint":str|null,"force":b,"en":b,"val":b,"pv":b,"sok":b},…]}
       -> {"res":[{"r":"ok"|"err:<tag>","w":null|"occupied"|"duplicate","ret":oid|null,"ch":[[attr,CANON],…]},…]}
+  {"op":"eq","a":OBJ,"b":OBJ} -> {"strict":bool,"loose":bool}      (`a == b` by the generated `__eq__`; lxml nodes ignored)
   VAL   = null | ["a",repr,truthy] | ["n",id] | ["l",[VAL…]] | OBJ        OBJ = ["o",oid,"Class",[[attr,VAL],…]]
   CANON = null | ["a",repr] | ["n",id] | ["o",oid] | ["l",[CANON…]]        (shallow: objects by identity)
 `pv` is the verdict of the real `validate()` on the real parent after the call, `sok` whether the real `str(child)`
@@ -89,10 +93,27 @@ def warnJ : Option Warn → Json
 def memberJ (m : MemberSpec) : Json :=
   Json.arr #[extern m.name, extern m.dataType, m.container, m.optional]
 
+/-- `GeneratedsSuper`, `GeneratedsSuperSuper`, `object`: the tail of every generated class's MRO -/
+def rootNames : List Nat := [intern "GeneratedsSuper", intern "GeneratedsSuperSuper", intern "object"]
+
 def handle (j : Json) : Json :=
   match getStr j "op" with
   | "members" =>
-    Json.mkObj [("members", Json.arr ((Gen.Members.table.getMembers (intern (getStr j "cls"))).map memberJ).toArray)]
+    -- the TRANSLATED `_get_members`, no `__all_members_` dict anywhere yet
+    match GM.call Gen.AddImpl.getMembers Gen.Members.table rootNames [] (intern (getStr j "cls")) with
+    | .returned _ v => Json.mkObj [("members", Json.arr (v.map (fun it => memberJ it.spec)).toArray)]
+    | _ => Json.mkObj [("members", Json.arr #[]), ("stuck", true)]
+  | "members_seq" =>
+    -- a history of `_get_members()` calls: the dicts are carried from call to call
+    let step := fun (acc : List (Nat × GM.Dict) × List Json) (c : Json) =>
+      match GM.call Gen.AddImpl.getMembers Gen.Members.table rootNames acc.1 (intern (c.getStr?.toOption.getD "")) with
+      | .returned σ v =>
+        (σ.dicts, Json.mkObj [("members", Json.arr (v.map (fun it => memberJ it.spec)).toArray),
+                              ("dicts", Json.arr (σ.dicts.map (fun d => Json.arr #[extern d.1,
+                                  Json.arr (d.2.map (fun kv => (extern kv.1 : Json))).toArray])).toArray)] :: acc.2)
+      | _ => (acc.1, Json.mkObj [("stuck", true)] :: acc.2)
+    let fin := (getArr j "classes").foldl step ([], [])
+    Json.mkObj [("res", Json.arr fin.2.reverse.toArray)]
   | "seq" =>
     let pool := (getArr j "pool").map parseObj
     let old := getStr j "algo" == "old"
@@ -102,15 +123,28 @@ def handle (j : Json) : Json :=
       let hint := (getStr? c "hint").bind (fun s => if s.isEmpty then none else some (intern s))
       let pv := getBool c "pv"
       let sok := getBool c "sok"
-      let r := addCore (!old) (fun _ => pv) (fun _ => sok) (Gen.Members.table.getMembers parent.cls)
-                ⟨getBool c "en", getBool c "val"⟩ parent child hint (getBool c "force")
-      let ch := Json.arr (diff parent r.parent).toArray
-      let out := match r.result with
-        | .ok o => Json.mkObj [("r", "ok"), ("w", warnJ r.warn), ("ret", o.oid), ("ch", ch)]
-        | .error e => Json.mkObj [("r", "err:" ++ errTag e), ("w", warnJ r.warn), ("ret", .null), ("ch", ch)]
-      (r.parent, out :: acc.2)
+      let members := Gen.Members.table.getMembers parent.cls
+      -- the TRANSLATED `add` / `__add` (`algo: old` = the hand model of the loop before the bad-hint repair)
+      let r : Option Outcome :=
+        if old then some (addCore false (fun _ => pv) (fun _ => sok) members ⟨getBool c "en", getBool c "val"⟩
+                            parent child hint (getBool c "force"))
+        else IR.outcomeOf (Gen.AddImpl.add
+                ⟨members, fun _ => pv, fun _ => sok, .component, getBool c "en", Gen.AddImpl.bookKeeping.map intern⟩
+                (IR.start parent child hint (getBool c "force") (getBool c "val")))
+      match r with
+      | none => (parent, Json.mkObj [("r", "stuck")] :: acc.2)
+      | some r =>
+        let ch := Json.arr (diff parent r.parent).toArray
+        let out := match r.result with
+          | .ok o => Json.mkObj [("r", "ok"), ("w", warnJ r.warn), ("ret", o.oid), ("ch", ch)]
+          | .error e => Json.mkObj [("r", "err:" ++ errTag e), ("w", warnJ r.warn), ("ret", .null), ("ch", ch)]
+        (r.parent, out :: acc.2)
     let fin := (getArr j "calls").foldl step (parseObj (getObj j "parent"), [])
     Json.mkObj [("res", Json.arr fin.2.reverse.toArray)]
+  | "eq" =>
+    let a := parseObj (getObj j "a")
+    let b := parseObj (getObj j "b")
+    Json.mkObj [("strict", pyEq true (.obj a) (.obj b)), ("loose", pyEq false (.obj a) (.obj b))]
   | _ => Json.mkObj [("error", "unknown op")]
 
 def main : IO Unit := loop handle
